@@ -2,6 +2,7 @@ import Mpd.Filter
 import MpdSpec.Tokenizer
 import MpdSpec.FilterParse
 import MpdProofs.Lemmas.Filter
+import MpdProofs.Lemmas.Utf8
 /-!
 # C11 — filter expressions mean on the server what was built on the client
 
@@ -991,5 +992,11 @@ example : wf (.and [Filter.tag (.named .Artist) (str "x")]) = false := by decide
 example : isWordTag (str "base") = false ∧ isWordTag (str "AudioFormat") = false ∧
     isWordTag (str "_foo") = false ∧ isWordTag (str "a b") = false ∧ isWordTag (str "MUSICBRAINZ_WORKID") = true ∧
     isWordTag (str "modified-since") = false ∧ isWordTag (str "x-y_z") = true := by decide
+
+/-! ## `escape_filter_value` uses `str::replace` on chars: the bytewise model agrees on every string -/
+
+theorem C11_value_escape_is_charwise (cs : List Nat) (h : ∀ c ∈ cs, Utf8.isScalar c = true) :
+    escapeFilterValue (Utf8.encodeStr cs) = Utf8.encodeStr (Utf8.escapeFilterValueC cs) :=
+  Utf8.escapeFilterValue_encode cs (Utf8.chars_of_scalar cs h)
 
 end Mpd.C11
